@@ -234,7 +234,7 @@ fn single(tag: &str, src: String, binds: Vec<(String, usize)>) -> Job {
 }
 
 /// Names of the built-in functions, read from the source table of the repository under test.
-fn builtin_names() -> (Vec<String>, bool) {
+pub fn builtin_names() -> (Vec<String>, bool) {
     let repo = std::env::var("VERIF_REPO").unwrap_or_else(|_| "/repo".to_string());
     let mut names: Vec<String> = Vec::new();
     for f in ["rscel/src/context/default_funcs.rs", "rscel/src/context/default_macros.rs"] {
